@@ -96,6 +96,7 @@ func Reference(q *cypher.RegularQuery, g gmodel.Graph, params map[string]any, op
 		results = append(results, r)
 		obs.OrderTies = obs.OrderTies || runObs.OrderTies
 		obs.ArbitraryWindow = obs.ArbitraryWindow || runObs.ArbitraryWindow
+		obs.CollectOrderOpen = obs.CollectOrderOpen || runObs.CollectOrderOpen
 	}
 	base := results[0]
 	seq, bag, bagList, count := true, true, true, true
@@ -121,6 +122,10 @@ func Reference(q *cypher.RegularQuery, g gmodel.Graph, params map[string]any, op
 			return base, CountOnly, nil
 		}
 		return base, Undetermined, nil
+	}
+	if obs.CollectOrderOpen {
+		// the element order of a collected list is open, whatever the tie-break orders happened to produce
+		seq, bag = false, false
 	}
 	switch {
 	case seq && HasFinalOrder(q) && !obs.OrderTies:
